@@ -41,7 +41,7 @@ def gen_shape(r, small=False):
         sym = r.random() < 0.5
         terms = [(1 if sym else r.choice([-2, -1, 1, 1, 1, 2, 3]), v) for v in vs]
         target = Fraction(r.randint(-4, 16), 4)
-        weight = r.choice([Fraction(1), Fraction(1), Fraction(2), Fraction(1, 2)])
+        weight = r.choice([Fraction(1), Fraction(1), Fraction(2), Fraction(1, 2), Fraction(0)])   # 0: a penalty switched off (e.g. cn_pce_penalty=0)
         bound = r.choice([None, None, Fraction(2), Fraction(20)])
         rows.append({"terms": terms, "target": target, "weight": weight, "bound": bound})
     cons = []
